@@ -249,6 +249,8 @@ class _Inliner:
                     inst = self.instantiate(g, sub, pre)
 
                     def assign(value, at, _kind=kind, _target=target):
+                        if _kind == "assign" and isinstance(value, ast.Name) and isinstance(_target, ast.Name) and value.id == _target.id:
+                            return []  # `x = h(x)` where h returns its (mutated) argument
                         if _kind == "assign":
                             return [ast.copy_location(ast.Assign(targets=[copy.deepcopy(_target)], value=value, type_comment=None), st)]
                         if _kind == "return":
